@@ -8,5 +8,6 @@ var Scenarios = map[string]func() *Scenario{
 	"C04": C04Scenario,
 	"C06": C06Scenario,
 	"C07": C07Scenario,
+	"C08": C08Scenario,
 	"C11": C11Scenario,
 }
